@@ -1,6 +1,6 @@
 (* Properties_C03.v — C03: sparse LU factors reproduce A.
    Property theorems only; proofs in LUProofs.v. *)
-From Model Require Import Base LU LUProofs DoolittleProofs DoolittleIPProofs MozartIPProofs NumInst.
+From Model Require Import Base LU LUProofs DoolittleProofs DoolittleIPProofs MozartIPProofs MozartProofs NumInst.
 From Coq Require Import Field ZArith.
 Local Open Scope nat_scope.
 
@@ -89,3 +89,21 @@ Theorem C03_mozart_in_place_factors_reproduce_A :
     forall r c, r < n -> c < n -> nsum N n (fun j => nmul N (Lf r j) (Uf j c)) = view N Ap A r c.
 Proof. exact mozart_in_place_decomposition_correct. Qed.
 Print Assumptions C03_mozart_in_place_factors_reproduce_A.
+
+(* LuDecompositionMozart (separate L and U: initial copies of A with explicit zeros in the fill-in, then the
+   right-looking elimination split between the two matrices), both phases as coded, for every previous content of
+   the L and U storage *)
+Theorem C03_mozart_factors_reproduce_A :
+  forall (N : Num)
+    (Nfield : field_theory (n0 N) (n1 N) (nadd N) (nmul N) (nsub N) (nopp N) (ndiv N) (ninv N) eq)
+    n (A : mat N) (Ap : pat) (L0 U0 : mat N),
+    (forall i, i < n -> Ap i i = true) ->
+    let Lp := fst (mozart_sym n Ap) in
+    let Up := snd (mozart_sym n Ap) in
+    let LU := mozart_num N n A Ap Lp Up L0 U0 in
+    let Lf := fun r c => if c <? r then view N Lp (fst LU) r c else if c =? r then n1 N else n0 N in
+    let Uf := fun r c => if r <=? c then view N Up (snd LU) r c else n0 N in
+    (forall i, i < n -> snd LU i i <> n0 N) ->
+    forall r c, r < n -> c < n -> nsum N n (fun j => nmul N (Lf r j) (Uf j c)) = view N Ap A r c.
+Proof. exact mozart_decomposition_correct. Qed.
+Print Assumptions C03_mozart_factors_reproduce_A.
